@@ -153,6 +153,11 @@ pub struct PubCase {
     pub digits: Option<u8>,
     /// fixed offset (minutes) for ZonedString
     pub offset_min: i32,
+    /// ZonedString only: the zone changes its offset to `.1` minutes at epoch second `.0` (a rule zone served by the
+    /// harness provider); the string is then printed *with* its offset, which must be the offset in force at the
+    /// rounded instant
+    #[serde(default)]
+    pub shift: Option<(i64, i32)>,
 }
 pub struct PubSub;
 
@@ -405,6 +410,33 @@ impl SubCheck for PubSub {
                     }
                 }
             }
+            Op::ZonedString if c.shift.is_some() => {
+                let (tr_s, after_min) = c.shift.unwrap();
+                let zone = crate::refm::tz::Zone { name: "Test/C07".into(), initial: c.offset_min as i64 * 60, trans: vec![(tr_s, after_min as i64 * 60)] };
+                let prov = TableProvider::new(vec![zone.clone()]);
+                let z = ZonedDateTime::try_new(c.a, iso(), TimeZone::IanaIdentifier("Test/C07".into())).expect("valid zoned");
+                let crosses = (c.a < tr_s as i128 * 1_000_000_000) != (want < tr_s as i128 * 1_000_000_000);
+                o = o.class(if crosses { "zoned.string:rounding-crosses-transition" } else { "zoned.string:rule-zone" });
+                match z.to_ixdtf_string_with_provider(
+                    temporal_rs::options::DisplayOffset::Auto,
+                    temporal_rs::options::DisplayTimeZone::Never,
+                    temporal_rs::options::DisplayCalendar::Never,
+                    to_string_opts(c),
+                    &prov,
+                ) {
+                    Ok(s) => {
+                        let off_s = zone.offset_at(want);
+                        let local = want + off_s as i128 * 1_000_000_000;
+                        let w = format!("{}{}", fmt::datetime(local.div_euclid(DAY) as i64, local.rem_euclid(DAY), string_prec(c)), fmt::offset_minutes(off_s / 60));
+                        chk!(o, s == w, format!("C07/{opname}/rule-zone/mismatch"), w, s);
+                    }
+                    Err(e) => {
+                        if instant_in_range(want) || e.kind() != ErrorKind::Range {
+                            fail_kind!(e, "error");
+                        }
+                    }
+                }
+            }
             Op::ZonedString => {
                 let tz = TimeZone::try_from_identifier_str(&fmt::offset_minutes(c.offset_min as i64)).expect("offset zone");
                 let z = ZonedDateTime::try_new(c.a, iso(), tz).expect("valid zoned");
@@ -501,7 +533,7 @@ fn time_unit() -> BoxedStrategy<U> {
 
 /// PlainDateTime::round cases (also used by C05)
 pub fn dt_round_case() -> BoxedStrategy<PubCase> {
-    let base = PubCase { op: Op::DateTimeRound, a: 0, a_day: 0, b: 0, b_day: 0, unit: U::Second, inc: 1, mode: Mode::Trunc, digits: None, offset_min: 0 };
+    let base = PubCase { op: Op::DateTimeRound, a: 0, a_day: 0, b: 0, b_day: 0, unit: U::Second, inc: 1, mode: Mode::Trunc, digits: None, offset_min: 0, shift: None };
     let unit_inc = time_unit().prop_flat_map(|u| (Just(u), proptest::sample::select(incs_for(u))));
     let dt_unit_inc = prop_oneof![4 => unit_inc, 1 => Just((U::Day, 1u32))];
     (dt_unit_inc, gen::mode(), gen::day())
@@ -515,7 +547,7 @@ pub fn dt_round_case() -> BoxedStrategy<PubCase> {
 }
 
 pub fn pub_case() -> BoxedStrategy<PubCase> {
-    let base = PubCase { op: Op::TimeRound, a: 0, a_day: 0, b: 0, b_day: 0, unit: U::Second, inc: 1, mode: Mode::Trunc, digits: None, offset_min: 0 };
+    let base = PubCase { op: Op::TimeRound, a: 0, a_day: 0, b: 0, b_day: 0, unit: U::Second, inc: 1, mode: Mode::Trunc, digits: None, offset_min: 0, shift: None };
     // (unit, inc) admissible for plain rounding / differences
     let unit_inc = time_unit().prop_flat_map(|u| (Just(u), proptest::sample::select(incs_for(u))));
     let b1 = base.clone();
@@ -582,7 +614,19 @@ pub fn pub_case() -> BoxedStrategy<PubCase> {
             }
         };
         strat
-            .prop_map(move |a| PubCase { op, a, a_day: day, unit: u, digits, mode: m, offset_min: if op == Op::ZonedString { off } else { 0 }, ..b.clone() })
+            .prop_map(move |a| {
+                // a third of the zoned strings: rule zone whose only transition is the upper neighbouring multiple of
+                // the increment (whole seconds) - or the next whole second for sub-second increments -, shifting by
+                // +-1 h / 30 min
+                let shift = if op == Op::ZonedString && (off.rem_euclid(3) == 0) {
+                    let up = if q >= 1_000_000_000 { (a.div_euclid(q) + 1) * q } else { (a.div_euclid(1_000_000_000) + 1) * 1_000_000_000 };
+                    let after = (off + [60, -60, 30, -30][(day.rem_euclid(4)) as usize]).clamp(-1439, 1439);
+                    Some(((up / 1_000_000_000) as i64, after))
+                } else {
+                    None
+                };
+                PubCase { op, a, a_day: day, unit: u, digits, mode: m, offset_min: if op == Op::ZonedString { off } else { 0 }, shift, ..b.clone() }
+            })
             .prop_filter("in range", |c| c.op != Op::DateTimeString || datetime_in_range(c.a_day, c.a))
     });
     prop_oneof![
@@ -597,6 +641,24 @@ pub fn pub_case() -> BoxedStrategy<PubCase> {
     .boxed()
 }
 
+/// only the rule-zone ZonedDateTime strings (also run by C13: the printed reading is that of the rounded instant)
+pub fn zoned_rule_string_case() -> BoxedStrategy<PubCase> {
+    let prec = prop_oneof![(0u8..=9).prop_map(|d| (Some(d), U::Nanosecond)), proptest::sample::select(vec![U::Minute, U::Second, U::Millisecond, U::Microsecond]).prop_map(|u| (None, u))];
+    (prec, gen::mode(), gen::instant_ns(), -1439i32..=1439, 0usize..4, prop::bool::weighted(0.7))
+        .prop_flat_map(|((digits, u), m, inst, off, k, near_transition)| {
+            let base = PubCase { op: Op::ZonedString, a: 0, a_day: 0, b: 0, b_day: 0, unit: u, inc: 1, mode: m, digits, offset_min: off, shift: None };
+            let q = fmt::prec_increment(string_prec(&base));
+            near_multiple(q, (inst - 5 * q).max(-MAX_INSTANT), (inst + 5 * q).min(MAX_INSTANT)).prop_map(move |a| {
+                let up = if q >= 1_000_000_000 { (a.div_euclid(q) + 1) * q } else { (a.div_euclid(1_000_000_000) + 1) * 1_000_000_000 };
+                // transition at the upper neighbouring multiple, or a few increments away
+                let tr = if near_transition { up } else { up + 1_000_000_000 * (k as i128 + 1) * 97 };
+                let after = (off + [60, -60, 30, -30][k]).clamp(-1439, 1439);
+                PubCase { a, shift: Some(((tr / 1_000_000_000) as i64, after)), ..base.clone() }
+            })
+        })
+        .boxed()
+}
+
 pub fn run(ctx: &mut Ctx) {
     ctx.rule = "hook: exhaustive grid of the internal increment rounder (i128: q in 1..=64 and {100,125,250,500,1000,60e9,3600e9,86400e9}, x in -3q-2..=3q+2 resp. k*q+{0,+-1,q/2,q/2+-1,..}; f64: q in 1..=64, x = k/1, k/2, k/4) x 9 modes against exact rational rounding. public: PlainTime/PlainDateTime/Instant round, until/since with smallestUnit+increment+mode (time largest unit), toString with fractionalSecondDigits 0..9 or smallestUnit on PlainTime/PlainDateTime/Instant/ZonedDateTime(fixed offsets)/Duration; every admissible (unit, increment) is drawn uniformly; values are k*q + {0,+-1,tie,tie+-1,...} or uniform. oracle: exact integer RoundNumberToIncrement; plus the mode-free neighbour invariant. non-trivial = value not a multiple of the increment (classes: tie, tie+-1, off-multiple, odd-increment, negative). cal-tie: constructed ties and tie +-1 ns between start + r1 and start + r2 years/months/weeks (r2 = r1 + increment, increments 1..12, 20, 25, 50, 100, both directions) through PlainDateTime/PlainDate until/since and Duration::round relative to a date; oracle RoundNumberToIncrement(r1 + inc/2 +- eps).".into();
     ctx.assumptions = vec!["since(a,b,mode) == round(a-b, mode) is the reading of 'since applies the mode as if negated' (negate, round other-this, negate back)".into()];
@@ -605,6 +667,9 @@ pub fn run(ctx: &mut Ctx) {
     ctx.run_enum(&HookSub, n, &|i| cases[i as usize].clone(), true);
     ctx.run_prop(&PubSub, &pub_case, ctx.tier.pick(2_000_000, 60_000_000));
     ctx.run_prop(&super::c07cal::CalSub, &super::c07cal::cal_case, ctx.tier.pick(400_000, 12_000_000));
+    // rounding a zoned difference to hours / minutes with an increment across days that are not 24 h long (C14's
+    // reference DifferenceZonedDateTime + NudgeToZonedTime on the rule table)
+    ctx.run_prop(&super::c14::Sub, &super::c14::rounding_across_days_case, ctx.tier.pick(150_000, 4_000_000));
 }
 
 pub fn replay(ctx: &mut Ctx, sub: &str, case: &Value) -> bool {
@@ -612,6 +677,7 @@ pub fn replay(ctx: &mut Ctx, sub: &str, case: &Value) -> bool {
         "hook" => ctx.replay_case(&HookSub, case),
         "public" => ctx.replay_case(&PubSub, case),
         "cal-tie" => ctx.replay_case(&super::c07cal::CalSub, case),
+        "zoned" => ctx.replay_case(&super::c14::Sub, case),
         _ => false,
     }
 }
